@@ -169,10 +169,11 @@ def d_dtc():
 def d_multiplexer():
     sa = B.structure("sa", [B.value_param("a", B.dop("u8", 8))])
     sb = B.structure("sb", [B.value_param("b", B.dop("u16", 16))])
-    m = B.mux("mx", B.dop("key", 8), [("c1", 1, 1, sa), ("c2", 2, 5, sb)])
+    m = B.mux("mx", B.dop("key", 8), [("c1", 1, 1, sa), ("c2", 2, 5, sb), ("c3", 9, 9, None)])
     return B.request([B.coded_const("sid", 0x22, 0), B.value_param("m", m)]), \
         [("m", ("oneof", [("tuple", "c1", ("dict", [("a", ("uint", 8))])),
-                          ("tuple", "c2", ("dict", [("b", ("uint", 16))]))]))], None
+                          ("tuple", "c2", ("dict", [("b", ("uint", 16))])),
+                          ("tuple", "c3", ("dict", []))]))], None
 
 
 def d_multiplexer_open_limits():
